@@ -124,7 +124,8 @@ func runC14(c *Ctx) error {
 		implBudget = 12000
 	}
 	res.Rule = "per group: generated sources (3 packages, 2 of them the same text under different import paths, a vendored copy; " +
-		"kernel declarations + random type expressions each with an identical copy, a respelt copy and near misses) are type-checked " +
+		"kernel declarations + random type expressions each with an identical copy, a respelt copy and near misses; array lengths 0, 1, 2, 3, 8 incl. arrays of " +
+		"arrays and pointers to arrays, near misses to and from length zero; twin declarations func(A, B) / map[A]B / struct{A; B} / []func(A) B with B a copy or near miss of A) are type-checked " +
 		"twice (two universes), under gotypesalias=1 (even groups) and =0 (odd groups); every ordered pair of probe types of the union " +
 		"of both universes goes through verifx.Identical (model op xidmat), go/types.Identical in universe 1 is the oracle (same-universe " +
 		"pairs directly, cross-universe pairs through the counterpart), the Lean spec (specmat14) is validated against that oracle inside " +
@@ -515,6 +516,10 @@ func c14Implements(c *Ctx, g *c14Group, budget int) error {
 			cause := "method-type-identity"
 			if sans[k] == "na" {
 				cause = "constraint-interface"
+			} else if in["mode"] == "cross" && impl[k] == "false" && strings.Contains(specOps[k], "(tparam ") {
+				// a method signature mentions a type parameter: across two type-checks it is the open finding
+				// Identical:rejects:tparam:cross-universe (pointer comparison only) seen through Implements
+				cause = "tparam:cross-universe"
 			}
 			res.Violate(hx.Violation{Signature: "Implements:" + dir + ":" + cause,
 				What:  "xtypes.Implements differs from go/types.Implements (" + in["mode"].(string) + " universe)",
@@ -634,11 +639,17 @@ func c14Synthetic(c *Ctx) error {
 	add("int", tInt)
 	add("byte", types.Universe.Lookup("byte").Type())
 	add("uint8", types.Typ[types.Uint8])
-	for _, n := range []int64{-1, -2, 3, 4} {
+	// array lengths: unknown (negative), zero (a known length) and positive; nested and behind pointers
+	for _, n := range []int64{-1, -2, 0, 1, 3, 4} {
 		add(fmt.Sprintf("[%d]int", n), types.NewArray(tInt, n))
+		add(fmt.Sprintf("*[%d]int", n), types.NewPointer(types.NewArray(tInt, n)))
 	}
-	add("[-1]string", types.NewArray(tStr, -1))
-	add("[3]string", types.NewArray(tStr, 3))
+	for _, n := range []int64{-1, 0, 3} {
+		add(fmt.Sprintf("[%d]string", n), types.NewArray(tStr, n))
+		for _, m := range []int64{-1, 0, 3} {
+			add(fmt.Sprintf("[%d][%d]int", n, m), types.NewArray(types.NewArray(tInt, m), n))
+		}
+	}
 	add("tuple()", types.NewTuple())
 	add("tuple(int)", types.NewTuple(types.NewVar(0, nil, "", tInt)))
 	add("tuple(int,string)", types.NewTuple(types.NewVar(0, pa, "a", tInt), types.NewVar(0, pa, "b", tStr)))
